@@ -57,6 +57,11 @@ CHECKS = {
   note="Tie: model manifest = Cargo.toml written by ProjectGenerator (flags × crate sets, whole table) and by `incan build` with a stub cargo (8 feature-trigger combinations, imports in main and dependency modules, project names). Oracle: exactness, pinning, package/binary name, references found in generated sources ⊆ declared.",
   technique="Lean 4 proof (table + list reasoning) + manifest correspondence + exactness/pinning oracle",
   ref="C15"),
+ "C16": dict(
+  text="Lean 4 theorems about the model of run_tests: a test is PASSED only if its body was executed and completed, FAILED only if it was executed and did not (`verdict_truthful`), @skip tests are never executed, @xfail inverts, -k/--slow select exactly the documented subset, without -x every selected test gets exactly one verdict, the exit status is non-zero iff some verdict is FAILED or XPASS, the printed counts add up to the verdicts; plus the kernel-checked witness that the pre-fix runner reported a failing test as PASSED.",
+  note="`bodyPasses` abstracts the exit status of the real `cargo test` on the per-test project (rustc/cargo/libtest trusted). Tie + oracle: generated test files with ground truth run by the real `incan test` (child process, real cargo test, shared target dir), quick: 5 scenarios / 17 executed tests. Fixtures, parametrize and async tests are outside the model.",
+  technique="Lean 4 proof (list induction over the runner loop) + correspondence with the real runner + ground-truth oracle",
+  ref="C16"),
  "C18": dict(
   text="Lean 4 theorem `converges`: for every history of didOpen/didChange/didClose over any number of documents and every interleaving of the handlers' store steps (each handler starts in arrival order, stores at any later time), after quiescence the stored text of each document is that of the last notification sent for it, and nothing after a close — proved by an invariant over schedule prefixes for the ticket protocol the server uses after the fix. The pre-fix protocol is kept in the model with kernel-checked counter-examples (stale overwrite, close undone, broken text not stored).",
   note="Assumes the framework first-polls handlers in arrival order (tower-lsp buffer_unordered). Tie: the real IncanLanguageServer is driven as a tower Service, handler futures polled by hand in seeded schedules with the client channel drained on demand; its own receive/store event order (cfg(incan_verif) hook) is replayed on the model, which must accept every real store and predict the final hover. Real threads are not exercised.",
